@@ -319,6 +319,25 @@ class _Resp(object):
         return self._b if n is None or n < 0 else self._b[:n]
 
 
+COMPANION = 'ZZ-BROKEN-MIB'
+COMPANION_TEXT = 'ZZ-BROKEN-MIB DEFINITIONS ::= BEGIN\n\n\n\n\n\nzzNode OBJECT IDENTIFIER ::= { ? 1 }\nEND\n'     # illegal character on line 7
+
+
+def direct_outcome(text):
+    """what the same parser object class yields for the text on its own: (class name, lineno) of the error, or None"""
+    from pysmi import error
+    p = cs.get_parser()
+    try:
+        p.parse(text)
+        return None
+    except error.PySmiError as e:
+        return (type(e).__name__, getattr(e, 'lineno', None))
+    except Exception:   # noqa - judged elsewhere (clause 1)
+        return ('foreign', None)
+    finally:
+        cs.get_parser()
+
+
 def run_compile(scn, J, tier):
     from pysmi import error
     f = files(tier)[scn['file']]
@@ -348,12 +367,16 @@ def run_compile(scn, J, tier):
             damaged = f.text[:cut]
             inside = f.inside_module(cut)
         root = None
-        base = {'modules': {}, 'requested': [req], 'options': {'ignoreErrors': True}, 'codegen': 'json', 'searchers': [], 'borrowers': []}
+        # a second, differently broken module is requested in the same call (before or after the damaged one): every
+        # failed entry must carry its own error
+        comp_first = (cut + len(via)) % 2 == 0
+        reqs = [COMPANION, req] if comp_first else [req, COMPANION]
+        base = {'modules': {}, 'requested': reqs, 'options': {'ignoreErrors': True}, 'codegen': 'json', 'searchers': [], 'borrowers': []}
         try:
             oldh = signal.signal(signal.SIGVTALRM, _vt_fire)
             signal.setitimer(signal.ITIMER_VIRTUAL, PARSE_CPU_CAP_S * 3)
             if via == 'sim':
-                base['sources'] = [{'holds': {req: {'o': 'ok', 'text': damaged}}, 'base': 'all'}]
+                base['sources'] = [{'holds': {req: {'o': 'ok', 'text': damaged}, COMPANION: {'o': 'ok', 'text': COMPANION_TEXT}}, 'base': 'all'}]
                 t = cs.run_world(base)
             else:
                 import pysmi.compiler as pc
@@ -366,6 +389,8 @@ def run_compile(scn, J, tier):
                             fh.write(txt)
                     with open(os.path.join(src, req), 'wb') as fh:
                         fh.write((f.text if via == 'filecap' else damaged).encode())
+                    with open(os.path.join(src, COMPANION), 'wb') as fh:
+                        fh.write(COMPANION_TEXT.encode())
                 base['sources'] = []
                 from pysmi.reader.localfile import FileReader
                 from pysmi.reader.httpclient import HttpReader
@@ -386,6 +411,7 @@ def run_compile(scn, J, tier):
                 else:
                     bodies = dict((n, txt.encode()) for n, txt in basemibs.ALL_BASE.items())
                     bodies[req] = damaged.encode()
+                    bodies[COMPANION] = COMPANION_TEXT.encode()
 
                     def fake_urlopen(reqobj):
                         url = reqobj.full_url
@@ -406,7 +432,7 @@ def run_compile(scn, J, tier):
                         with w:
                             w.begin_op(0, 'compile')
                             try:
-                                t.R = comp.compile(req, ignoreErrors=True)
+                                t.R = comp.compile(*reqs, ignoreErrors=True)
                             except (core.WorldTimeout, core.StepBudget):
                                 raise
                             except BaseException as e:  # noqa
@@ -446,6 +472,19 @@ def run_compile(scn, J, tier):
                 if via == 'filecap' and s == 'compiled' and cut <= len(f.text.encode()):
                     viol.append({'clause': 'C11.5-compile', 'key': 'C11.5-compile|compiled-capped|%s' % via, 'facts': {'what': 'compiled-capped', 'via': via},
                                  'message': 'module %s compiled although the file is at/above the size cap %d' % (req, cut)})
+                zs = R.get(COMPANION)
+                ze = getattr(zs, 'error', None)
+                if via != 'filecap' and (str(zs) != 'failed' or not isinstance(ze, error.PySmiLexerError) or getattr(ze, 'lineno', None) != 7):   # (the size cap of 'filecap' hits the companion file too)
+                    viol.append({'clause': 'C11.5-compile', 'key': 'C11.5-compile|companion-error|%s' % via, 'facts': {'what': 'companion-error', 'via': via},
+                                 'message': 'the other broken module of the call (illegal character on line 7) is reported %s with %s line %r (%s)' % (
+                                     zs, type(ze).__name__, getattr(ze, 'lineno', None), what)})
+                if s == 'failed' and via != 'filecap':
+                    e = getattr(st, 'error', None)
+                    want = direct_outcome(damaged)
+                    if want is not None and want[0] != 'foreign' and isinstance(e, error.PySmiLexerError) and (type(e).__name__, getattr(e, 'lineno', None)) != want:
+                        viol.append({'clause': 'C11.5-compile', 'key': 'C11.5-compile|foreign-error|%s' % via, 'facts': {'what': 'foreign-error', 'via': via},
+                                     'message': 'the failed entry of %s carries %s line %r; parsing the same text on its own gives %s line %r (%s)' % (
+                                         req, type(e).__name__, getattr(e, 'lineno', None), want[0], want[1], what)})
                 if s == 'failed':
                     e = getattr(st, 'error', None)
                     if isinstance(e, error.PySmiLexerError):
